@@ -202,61 +202,61 @@ inductive Vendor where
   | nitf | tiff                                                                              -- general
   deriving DecidableEq, Repr
 
-private def a (x : Atom) : Cond := .atom x
-private def n (x : Atom) : Cond := .not (.atom x)
-private def io (c : Cond) : Step := ⟨c, .raise .sarpyIO⟩
-private def none_ (c : Cond) : Step := ⟨c, .retNone⟩
-private def deepS : Step := ⟨.tt, .deep⟩
+@[reducible] def ca (x : Atom) : Cond := .atom x
+@[reducible] def cn (x : Atom) : Cond := .not (.atom x)
+@[reducible] def sIO (c : Cond) : Step := ⟨c, .raise .sarpyIO⟩
+@[reducible] def sNone (c : Cond) : Step := ⟨c, .retNone⟩
+@[reducible] def deepS : Step := ⟨.tt, .deep⟩
 
 /-- TiffDetails.__init__ (tiff.py:158-195), used by capella.is_a and general tiff.is_a -/
 def tiffSteps : List Step :=
-  [ io (.not (.and (a .isStr) (a .isFile))),
-    io (n .head2Decodes),                                   -- try: fi.read(2).decode('utf-8') except Exception: raise SarpyIOError
-    io (.and (n .tiffII) (n .tiffMM)),
-    ⟨n .tiffHasMagic, .raise .index⟩,                       -- numpy.fromfile(fi, .., count=1)[0] on fewer than two bytes
-    io (n .tiffMagicOk),
-    ⟨a .tiffMagic43, .deep⟩ ]                               -- BigTIFF header words: not modelled
+  [ sIO (.not (.and (ca .isStr) (ca .isFile))),
+    sIO (cn .head2Decodes),                                   -- try: fi.read(2).decode('utf-8') except Exception: raise SarpyIOError
+    sIO (.and (cn .tiffII) (cn .tiffMM)),
+    ⟨cn .tiffHasMagic, .raise .index⟩,                       -- numpy.fromfile(fi, .., count=1)[0] on fewer than two bytes
+    sIO (cn .tiffMagicOk),
+    ⟨ca .tiffMagic43, .deep⟩ ]                               -- BigTIFF header words: not modelled
 
-def h5Pre : List Step := [none_ (a .fileLike), none_ (n .isHdf5), none_ (a .noH5py)]
-def h5Body : List Step := [⟨a .noH5py, .raise .importErr⟩, io (n .isFile), deepS]
+def h5Pre : List Step := [sNone (ca .fileLike), sNone (cn .isHdf5), sNone (ca .noH5py)]
+def h5Body : List Step := [⟨ca .noH5py, .raise .importErr⟩, sIO (cn .isFile), deepS]
 
 def tab : Vendor → OpenerTab
-  | .capella => ⟨[none_ (a .fileLike)], tiffSteps ++ [deepS], [.sarpyIO]⟩
+  | .capella => ⟨[sNone (ca .fileLike)], tiffSteps ++ [deepS], [.sarpyIO]⟩
   | .csk => ⟨h5Pre, h5Body, [.sarpyIO]⟩
-  | .gff => ⟨[none_ (a .fileLike)], [io (n .isFile), io (n .gffHead), deepS], [.sarpyIO]⟩
+  | .gff => ⟨[sNone (ca .fileLike)], [sIO (cn .isFile), sIO (cn .gffHead), deepS], [.sarpyIO]⟩
   | .iceye => ⟨h5Pre, h5Body, [.sarpyIO]⟩
   | .nisar => ⟨h5Pre, h5Body, [.importErr, .sarpyIO]⟩
-  | .palsar2 => ⟨[none_ (a .fileLike)],
-      [ io (n .pexists),
-        ⟨.and (n .isFile) (n .isDir), .raise .value⟩,
-        ⟨a .palsarNamed, .deep⟩,                              -- the listdir loop reads the named entries
-        io (n .palsarNamed),                                  -- len(img_files) == 0
+  | .palsar2 => ⟨[sNone (ca .fileLike)],
+      [ sIO (cn .pexists),
+        ⟨.and (cn .isFile) (cn .isDir), .raise .value⟩,
+        ⟨ca .palsarNamed, .deep⟩,                              -- the listdir loop reads the named entries
+        sIO (cn .palsarNamed),                                  -- len(img_files) == 0
         deepS ], [.importErr, .sarpyIO]⟩
-  | .radarsat => ⟨[none_ (a .fileLike)],
-      [ ⟨.and (a .isDir) (a .dirProduct), .deep⟩,             -- file_name redirected to the product.xml inside
-        io (n .isFile),
-        io (n .nameProduct),
-        ⟨n .xmlParses, .raise .parse⟩,                        -- _parse_xml
+  | .radarsat => ⟨[sNone (ca .fileLike)],
+      [ ⟨.and (ca .isDir) (ca .dirProduct), .deep⟩,             -- file_name redirected to the product.xml inside
+        sIO (cn .isFile),
+        sIO (cn .nameProduct),
+        ⟨cn .xmlParses, .raise .parse⟩,                        -- _parse_xml
         deepS ], [.sarpyIO]⟩
-  | .sentinel => ⟨[none_ (a .fileLike)],
-      [ ⟨.and (a .isDir) (a .dirManifest), .deep⟩,
-        io (.or (n .pexists) (n .isFile)),
-        io (n .nameManifest),
-        ⟨n .xmlParses, .raise .parse⟩,
+  | .sentinel => ⟨[sNone (ca .fileLike)],
+      [ ⟨.and (ca .isDir) (ca .dirManifest), .deep⟩,
+        sIO (.or (cn .pexists) (cn .isFile)),
+        sIO (cn .nameManifest),
+        ⟨cn .xmlParses, .raise .parse⟩,
         deepS ], [.sarpyIO, .attribute, .syntax, .parse]⟩
   | .sicd => ⟨[], [deepS], [.sarpyIO]⟩
-  | .sio => ⟨[none_ (a .fileLike)], [io (n .isFile), io (n .len4), io (n .sioMagic), deepS], [.sarpyIO]⟩
-  | .tsx => ⟨[none_ (a .fileLike)],
-      [ io (n .isStr),
-        io (n .pexists),
-        ⟨.and (a .isDir) (a .dirXmlDeclOpen), .raise .value⟩,
-        ⟨.and (a .isDir) (a .dirXmlLevel1), .deep⟩,
-        io (a .isDir),
-        ⟨.and (a .extXml) (a .probeDeclOpen), .raise .value⟩,
-        ⟨.and (a .extXml) (a .probeLevel1), .deep⟩,
-        io .tt,
+  | .sio => ⟨[sNone (ca .fileLike)], [sIO (cn .isFile), sIO (cn .len4), sIO (cn .sioMagic), deepS], [.sarpyIO]⟩
+  | .tsx => ⟨[sNone (ca .fileLike)],
+      [ sIO (cn .isStr),
+        sIO (cn .pexists),
+        ⟨.and (ca .isDir) (ca .dirXmlDeclOpen), .raise .value⟩,
+        ⟨.and (ca .isDir) (ca .dirXmlLevel1), .deep⟩,
+        sIO (ca .isDir),
+        ⟨.and (ca .extXml) (ca .probeDeclOpen), .raise .value⟩,
+        ⟨.and (ca .extXml) (ca .probeLevel1), .deep⟩,
+        sIO .tt,
         deepS ], [.sarpyIO]⟩                                  -- (not reached: the branch above is exhaustive)
-  | .finalAttempt => ⟨[none_ (a .fileLike)], [deepS], [.sarpyIO, .value]⟩
+  | .finalAttempt => ⟨[sNone (ca .fileLike)], [deepS], [.sarpyIO, .value]⟩
   | .sidd => ⟨[], [deepS], [.sarpyIO]⟩
   | .cphd => ⟨[], [deepS], [.sarpyIO]⟩
   | .crsd => ⟨[], [deepS], [.sarpyIO]⟩
